@@ -14,7 +14,7 @@ SPEC = dict(
     technique="property-based histories x exhaustive crash-point enumeration with link-time FS interposition, ASan+UBSan",
     rule=("kv_crash: config (maxLogSizeBytes 48/128/512/1 MiB, inline compaction, cache 2/1000) x up to 12 operations (set, "
           "set-TTL, batch +-TTL, remove, prefix-remove, clear, expire-at past/future, persist, compact, clean close/reopen, wall-clock advance 1 ms/999 ms/1 s/1 h) "
-          "over 9 keys (binary, 40 B, 255 B) and values from empty to 9000 B, x every crash point (effect boundary and every "
+          "over 12 keys (binary incl. NUL, 1 B, 40 B, 255 B, 65535 B = MAX_KEY_LENGTH) and values from empty to 9000 B (rarely 64 KiB), x every crash point (effect boundary and every "
           "byte of every write; writes beyond the 4 KiB per-history budget at boundaries +-8 B, iovec seams +-8 B and a "
           "stride), x a continuation of 1-3 operations ending in a clean close, a crash after the suffix or a crash at a "
           "generated effect/byte of the continuation; every reopen happens 0/1 ms/999 ms/1 s/1 h of wall-clock time after the crash and "
